@@ -232,36 +232,6 @@ Qed.
 
 Definition negp (p : item -> bool) (x : item) : bool := negb (p x).
 
-Lemma brem_if_spec p : forall n front back c l' c',
-  length front = n -> Forall (fun x => p x = false) back ->
-  brem_if p n (front ++ back) c = (l', c') ->
-  Permutation l' (filter (negp p) front ++ back) /\
-  c' = (c + Z.of_nat (length front) - Z.of_nat (length (filter (negp p) front)))%Z.
-Proof.
-  induction n; intros front back c l' c' Hl Hb H.
-  - destruct front; [|discriminate]. simpl in *. inversion H; subst. split; auto. lia.
-  - destruct (exists_last (l:=front)) as [f' [x Ef]]; [intro; subst; discriminate|]. subst front.
-    rewrite app_length in Hl. simpl in Hl. assert (Hn : length f' = n) by lia. clear Hl.
-    simpl in H. rewrite <- app_assoc in H. simpl in H. subst n. rewrite nth_app_mid in H.
-    rewrite filter_app, !app_length. simpl. unfold negp at 2 4.
-    destruct (p x) eqn:Px; simpl.
-    + destruct (exists_last_or_nil back) as [Eb|[back' [z Eb]]]; subst back.
-      * rewrite bremove_last in H.
-        assert (H' : brem_if p (length f') (f' ++ []) (c + 1) = (l', c')) by (rewrite app_nil_r; exact H).
-        destruct (IHn f' [] _ _ _ eq_refl (Forall_nil _) H') as [P C]. split.
-        -- rewrite !app_nil_r in *. exact P.
-        -- lia.
-      * rewrite bremove_mid in H.
-        assert (Hb' : Forall (fun x => p x = false) (z :: back')).
-        { rewrite Forall_forall in *. intros y [Hy|Hy]; apply Hb; apply in_or_app; [right; left; auto|left; auto]. }
-        destruct (IHn f' (z :: back') _ _ _ eq_refl Hb' H) as [P C]. split.
-        -- rewrite P. rewrite app_nil_r. apply Permutation_app_head. apply Permutation_cons_append.
-        -- lia.
-    + assert (Hb' : Forall (fun x => p x = false) (x :: back)) by (constructor; auto).
-      destruct (IHn f' (x :: back) _ _ _ eq_refl Hb' H) as [P C]. split.
-      * rewrite P. rewrite <- app_assoc. reflexivity.
-      * lia.
-Qed.
 
 Lemma NoDup_keys_filter (f : item -> bool) (l : list item) : NoDup (map fst l) -> NoDup (map fst (filter f l)).
 Proof.
